@@ -19,7 +19,7 @@ META = {
         "slot; (5) sub-configurations are linked to their parent before anything is loaded into them."),
     "decided": ["C03.1 plaintext reaches the tree only through encrypt (TAINT)", "C03.2 recorded method concrete (RETURNS)",
                 "C03.3 nearest-ancestor key-file lookup; KeyFile constructed only in Config's accessors",
-                "C03.4 inheritance by lookup, not by copy", "C03.5 parent link of sub-configurations"],
+                "C03.4 inheritance by lookup, not by copy", "C03.5 parent link of sub-configurations", "C03.6 cipher wiring inverts (shared with C08.1-3)"],
     "not_decided": ["that ciphertext hides plaintext; which files are touched at run time"],
 }
 
@@ -241,3 +241,11 @@ def check(ctx):
 
     # ---------------------------------------------------------------- C03.5
     check_links(ctx, "link")
+
+    # ---------------------------------------------------------------- C03.6 "loading yields the original plaintext":
+    # the cipher wiring decided under C08 (fresh prepended IV split at the same N, same primitives both ways,
+    # XOR key stream over the whole value) is a necessary condition here too
+    from . import c08
+    sub = type(ctx)(ctx.pid, ctx.an, ctx.tier)
+    c08.check(sub)
+    ctx.obligations.extend(o for o in sub.obligations if o.rule.split(".", 1)[1].split(".")[0] in ("iv", "agree", "xor"))
